@@ -312,7 +312,8 @@ class Repo:
     def _load_class(self, mi: ModuleInfo, node: ast.ClassDef):
         q = f"{mi.name}.{node.name}"
         ci = ClassInfo(q, node.name, node, mi)
-        ci.base_exprs = [dotted(b) or norm(b) for b in node.bases]
+        # `Base[T]` (a parametrised generic base) is the class `Base`
+        ci.base_exprs = [dotted(b.value if isinstance(b, ast.Subscript) else b) or norm(b) for b in node.bases]
         for stmt in node.body:
             if isinstance(stmt, (ast.FunctionDef, ast.AsyncFunctionDef)):
                 fi = self._register_func(mi, stmt, q, ci, None)
